@@ -1,4 +1,182 @@
 /-
-C05 — placeholder (theorems follow)
+C05 — Factorization preserves meaning and never widens a rule.
+Theorems about the relational model `Fggs.Fz.factorizationOf` (FggsModel/Factorize.lean): consequences that
+hold for EVERY output the relation admits (any tree decomposition, any set iteration order).
 -/
 import FggsModel.Factorize
+import Mathlib.Tactic.Linarith
+import Mathlib.Data.List.Basic
+import Mathlib.Data.List.Nodup
+
+set_option linter.unusedSimpArgs false
+set_option linter.unusedVariables false
+
+namespace C05
+open Fggs Fggs.Cj Fggs.Fz
+
+/-! ### helpers -/
+
+private theorem nodupB_iff {α} [DecidableEq α] (l : List α) : nodupB l = true ↔ l.Nodup := by
+  induction l with
+  | nil => simp [nodupB]
+  | cons x xs ih =>
+    simp only [nodupB, Bool.and_eq_true, Bool.not_eq_true', List.nodup_cons, ih]
+    constructor
+    · rintro ⟨h1, h2⟩
+      refine ⟨?_, h2⟩
+      intro hx
+      have : xs.contains x = true := by simpa using hx
+      rw [this] at h1; cases h1
+    · rintro ⟨h1, h2⟩
+      refine ⟨?_, h2⟩
+      cases hc : xs.contains x with
+      | false => rfl
+      | true => exact absurd (by simpa using hc) h1
+
+private theorem subsetN_iff (a b : List Node) : subsetN a b = true ↔ ∀ v ∈ a, v ∈ b := by
+  simp [subsetN, List.all_eq_true]
+
+/-- the "tree shape" check for one non-root rule -/
+private def treeShape (avoid : List String) (out : List Rule) (r : Rule) : Bool :=
+  match parentsOf avoid out r.lhs with
+  | [p] => (match (newEdges avoid p).filter (·.label = r.lhs) with
+            | [e] => decide (e.nodes = r.ext) &&
+                     nodupB r.ext && r.ext.all (fun v => p.nodes.contains v) &&
+                     r.nodes.all (fun v => !p.nodes.contains v || r.ext.contains v)
+            | _ => false)
+  | _ => false
+
+/-- one-time unpacking of the definition (the conjuncts used by the property theorems) -/
+private theorem unpack (orig : Rule) (avoid : List String) (out : List Rule)
+    (h : factorizationOf orig avoid out = true) :
+    ∃ root, out.filter (·.lhs = orig.lhs) = [root] ∧
+      root.ext = orig.ext ∧
+      nodupB (out.map (·.lhs.name)) = true ∧
+      (∀ r ∈ out, r.lhs = orig.lhs ∨
+        (isNew avoid r.lhs = true ∧ r.lhs.terminal = false ∧ r.lhs.type = r.ext.map (·.label))) ∧
+      (∀ r ∈ out, nodupB r.nodes = true ∧ subsetN r.nodes orig.nodes = true ∧ subsetN r.ext r.nodes = true) ∧
+      (∀ r ∈ out, r.lhs = orig.lhs ∨ treeShape avoid out r = true) ∧
+      (∀ r ∈ out, nodupB (oldEdges avoid r) = true ∧
+        ∀ e ∈ oldEdges avoid r, e ∈ orig.edges ∧ subsetN e.nodes r.nodes = true) := by
+  unfold factorizationOf at h
+  split at h
+  · rename_i root hroot
+    refine ⟨root, hroot, ?_⟩
+    simp only [Bool.and_eq_true, decide_eq_true_eq] at h
+    obtain ⟨⟨⟨⟨⟨⟨⟨⟨h1, h2⟩, h3⟩, h4⟩, h5⟩, h6⟩, h7⟩, h8⟩, h9⟩ := h
+    refine ⟨h1, h2, ?_, ?_, ?_, ?_⟩
+    · intro r hr
+      have := List.all_eq_true.mp h3 r hr
+      simpa [Bool.or_eq_true, Bool.and_eq_true, and_assoc] using this
+    · intro r hr
+      have := List.all_eq_true.mp h4 r hr
+      simpa [Bool.and_eq_true, and_assoc] using this
+    · intro r hr
+      have := List.all_eq_true.mp h5 r hr
+      rw [Bool.or_eq_true, decide_eq_true_eq] at this
+      exact this
+    · intro r hr
+      have := List.all_eq_true.mp h9 r hr
+      simp only [Bool.and_eq_true] at this
+      obtain ⟨⟨ha, hb⟩, _⟩ := this
+      refine ⟨ha, ?_⟩
+      intro e he
+      have := List.all_eq_true.mp hb e he
+      simp only [Bool.and_eq_true] at this
+      obtain ⟨⟨hc, hd⟩, _⟩ := this
+      exact ⟨by simpa using hc, hd⟩
+  · cases h
+
+/-! ### property theorems -/
+
+/-- exactly one rule keeps the original left-hand side, and it keeps the external nodes in order -/
+theorem root_unique (orig : Rule) (avoid : List String) (out : List Rule)
+    (h : factorizationOf orig avoid out = true) :
+    ∃ root, out.filter (·.lhs = orig.lhs) = [root] ∧ root.ext = orig.ext := by
+  obtain ⟨root, hroot, hext, _⟩ := unpack orig avoid out h
+  exact ⟨root, hroot, hext⟩
+
+/-- **fresh nonterminal names collide with no name to avoid and are pairwise distinct**; each is a
+nonterminal typed by its rule's externals -/
+theorem fresh_names (orig : Rule) (avoid : List String) (out : List Rule)
+    (h : factorizationOf orig avoid out = true) :
+    (out.map (·.lhs.name)).Nodup ∧
+    ∀ r ∈ out, r.lhs ≠ orig.lhs →
+      r.lhs.name ∉ avoid ∧ r.lhs.terminal = false ∧ r.lhs.type = r.ext.map (·.label) := by
+  obtain ⟨root, _, _, hnd, hfresh, _⟩ := unpack orig avoid out h
+  refine ⟨(nodupB_iff _).mp hnd, ?_⟩
+  intro r hr hne
+  rcases hfresh r hr with heq | ⟨hnew, hterm, htype⟩
+  · exact absurd heq hne
+  · refine ⟨?_, hterm, htype⟩
+    intro hmem
+    have : avoid.contains r.lhs.name = true := by simpa using hmem
+    simp [isNew] at hnew
+    exact hnew hmem
+
+/-- **no new rule has more nodes than the rule it came from** -/
+theorem no_wider (orig : Rule) (avoid : List String) (out : List Rule) (hn : orig.nodes.Nodup)
+    (h : factorizationOf orig avoid out = true) :
+    ∀ r ∈ out, r.nodes.length ≤ orig.nodes.length := by
+  obtain ⟨root, _, _, _, _, hnodes, _⟩ := unpack orig avoid out h
+  intro r hr
+  obtain ⟨hnd, hsub, _⟩ := hnodes r hr
+  have hnd' : r.nodes.Nodup := (nodupB_iff _).mp hnd
+  have hsub' : r.nodes ⊆ orig.nodes := fun v hv => (subsetN_iff _ _).mp hsub v hv
+  exact List.Nodup.length_le_of_subset hnd' hsub'
+
+/-- every edge of a new rule is either one of the new nonterminal edges or an original edge, unchanged
+(same label, same attachment nodes in the same order, same id): nothing is re-attached or invented -/
+theorem old_edges_original (orig : Rule) (avoid : List String) (out : List Rule)
+    (h : factorizationOf orig avoid out = true) :
+    ∀ r ∈ out, ∀ e ∈ r.edges, isNew avoid e.label = true ∨ (e ∈ orig.edges ∧ ∀ v ∈ e.nodes, v ∈ r.nodes) := by
+  obtain ⟨root, _, _, _, _, _, _, hold⟩ := unpack orig avoid out h
+  intro r hr e he
+  cases hnew : isNew avoid e.label with
+  | true => exact Or.inl rfl
+  | false =>
+    right
+    have hmem : e ∈ oldEdges avoid r := by
+      simp [oldEdges, List.mem_filter, he, hnew]
+    obtain ⟨h1, h2⟩ := (hold r hr).2 e hmem
+    exact ⟨h1, (subsetN_iff _ _).mp h2⟩
+
+/-- no original edge is duplicated inside one rule -/
+theorem old_edges_nodup (orig : Rule) (avoid : List String) (out : List Rule)
+    (h : factorizationOf orig avoid out = true) :
+    ∀ r ∈ out, (oldEdges avoid r).Nodup := by
+  obtain ⟨root, _, _, _, _, _, _, hold⟩ := unpack orig avoid out h
+  intro r hr
+  exact (nodupB_iff _).mp (hold r hr).1
+
+/-- every new nonterminal edge is attached to the external nodes of the (unique) rule it stands for, in
+order — so inlining that rule identifies externals with attachment nodes by the identity on nodes -/
+theorem new_edges_attach (orig : Rule) (avoid : List String) (out : List Rule)
+    (h : factorizationOf orig avoid out = true) :
+    ∀ r ∈ out, r.lhs ≠ orig.lhs →
+      ∃ p ∈ out, ∃ e ∈ p.edges, e.label = r.lhs ∧ e.nodes = r.ext ∧ (∀ v ∈ r.ext, v ∈ p.nodes) := by
+  obtain ⟨root, _, _, _, _, _, htree, _⟩ := unpack orig avoid out h
+  intro r hr hne
+  rcases htree r hr with heq | hts
+  · exact absurd heq hne
+  · unfold treeShape at hts
+    split at hts
+    · rename_i p hp
+      split at hts
+      · rename_i e he
+        have hpmem : p ∈ parentsOf avoid out r.lhs := by rw [hp]; exact List.mem_singleton.mpr rfl
+        have hpout : p ∈ out := (List.mem_filter.mp hpmem).1
+        have hemem : e ∈ (newEdges avoid p).filter (·.label = r.lhs) := by
+          rw [he]; exact List.mem_singleton.mpr rfl
+        obtain ⟨he1, he2⟩ := List.mem_filter.mp hemem
+        have hepe : e ∈ p.edges := (List.mem_filter.mp he1).1
+        simp only [Bool.and_eq_true, decide_eq_true_eq] at hts
+        obtain ⟨⟨⟨hn, _⟩, hall⟩, _⟩ := hts
+        refine ⟨p, hpout, e, hepe, by simpa using he2, hn, ?_⟩
+        intro v hv
+        have := List.all_eq_true.mp hall v hv
+        simpa using this
+      · cases hts
+    · cases hts
+
+end C05
